@@ -353,6 +353,7 @@ def rule_wiring(chk):
     c03.rule_do_group(chk, tpl)
     c03.rule_regroup(chk)
     c03.rule_dispatch(chk)
+    c03.rule_bounds(chk)
     # the wrapper that `src.X` / `dst.X` resolve through must (re)bind every property AND every constant whenever an array is set
     def pick(test):
         return U(test) == 'len(group.data) > 0'
